@@ -34,7 +34,9 @@ func newGoStructObject(value reflect.Value) *goStructObject {
 	}
 }
 
-func (o goStructObject) getValue(name string) reflect.Value {
+// getField resolves name to a field: by json tag or field name, then by the Go
+// name of any exported field (such as one tagged json:"-").
+func (o goStructObject) getField(name string) reflect.Value {
 	if idx := fieldIndexByName(reflect.Indirect(o.value).Type(), name); len(idx) > 0 {
 		return reflect.Indirect(o.value).FieldByIndex(idx)
 	}
@@ -44,7 +46,17 @@ func (o goStructObject) getValue(name string) reflect.Value {
 		if field := reflect.Indirect(o.value).FieldByName(name); field.IsValid() {
 			return field
 		}
+	}
 
+	return reflect.Value{}
+}
+
+func (o goStructObject) getValue(name string) reflect.Value {
+	if field := o.getField(name); field.IsValid() {
+		return field
+	}
+
+	if validGoStructName(name) {
 		if method := o.value.MethodByName(name); method.IsValid() {
 			return method
 		}
@@ -62,11 +74,12 @@ func (o goStructObject) method(name string) (reflect.Method, bool) { //nolint:un
 }
 
 func (o goStructObject) setValue(rt *runtime, name string, value Value) bool {
-	if idx := fieldIndexByName(reflect.Indirect(o.value).Type(), name); len(idx) == 0 {
+	// the same resolution as reads, so that a name that reads a field also writes it
+	fieldValue := o.getField(name)
+	if !fieldValue.IsValid() {
 		return false
 	}
 
-	fieldValue := o.getValue(name)
 	converted, err := rt.convertCallParameter(value, fieldValue.Type())
 	if err != nil {
 		panic(rt.panicTypeError("Object.setValue convertCallParameter: %s", err))
@@ -132,6 +145,13 @@ func goStructCanPut(obj *object, name string) bool {
 func goStructPut(obj *object, name string, value Value, throw bool) {
 	goObj := obj.value.(*goStructObject)
 	if goObj.setValue(obj.runtime, name, value) {
+		return
+	}
+
+	if goObj.getValue(name).IsValid() {
+		// A method: reads always return it, so a script property of that name could
+		// never be seen (and would be enumerated twice). It is read-only.
+		obj.runtime.typeErrorResult(throw)
 		return
 	}
 
